@@ -272,8 +272,63 @@ fn exchange_legacy(t: &mut Trace, rng: &mut Rng) -> usize {
 fn crafted(t: &mut Trace, rng: &mut Rng, lib_role: &str, scheme: u64, offset: u32, high: bool, legacy: bool) {
     let mk = |r: &str| if r == "client" { PeerType::Client } else { PeerType::Server };
     let peer_role = if lib_role == "client" { "server" } else { "client" };
+    let (p1, dpos) = craft_p1(t, rng, peer_role, scheme, offset, high, legacy);
+    let mut a = Side { h: Handshake::new(mk(lib_role)), name: "A", role: if lib_role == "client" { "client" } else { "server" } };
+    t.emit(&json!({"ev":"HsNew","side":"A","role":lib_role}));
+    let mut inp = vec![3u8];
+    inp.extend_from_slice(&p1);
+    let (ev, resp, _, _) = proc_event(&mut a, &inp);
+    let ok = ev["res"] == "ok";
+    t.emit(&ev);
+    if ok && resp.len() == 1 + 2 * P {
+        let p2 = &resp[1 + P..];
+        t.emit(&p2_facts(p2, &p1, a.role, dpos));
+        // finish the exchange the way such a peer would: echo (legacy) or any packet 2, plus trailing data
+        let mut fin = if legacy { resp[1..1 + P].to_vec() } else { rng.bytes(P) };
+        fin.extend_from_slice(&[9, 8, 7]);
+        let (ev2, _, _, _) = proc_event(&mut a, &fin);
+        t.emit(&ev2);
+    }
+}
+
+/// One Handshake instance used for two handshakes in a row (the public generate_outbound_p0_and_p1 starts it over): what the
+/// first peer sent must not influence the answer to the second one.
+fn restarted(t: &mut Trace, rng: &mut Rng, lib_role: &str, first_legacy: bool, second_legacy: bool) {
+    let mk = |r: &str| if r == "client" { PeerType::Client } else { PeerType::Server };
+    let peer_role = if lib_role == "client" { "server" } else { "client" };
+    let mut a = Side { h: Handshake::new(mk(lib_role)), name: "A", role: if lib_role == "client" { "client" } else { "server" } };
+    t.emit(&json!({"ev":"HsNew","side":"A","role":lib_role}));
+    for (round, legacy) in [first_legacy, second_legacy].iter().enumerate() {
+        let (ev, _) = gen_event(&mut a);
+        let ok = ev["res"] == "ok";
+        t.emit(&ev);
+        if !ok { return; }
+        let (scheme, off) = (rng.below(2), rng.below(728) as u32);
+        let (p1, dpos) = craft_p1(t, rng, peer_role, scheme, off, false, *legacy);
+        let mut inp = vec![3u8];
+        inp.extend_from_slice(&p1);
+        // the second packet 1 arrives in two pieces now and then
+        let cutpos = if round == 1 && rng.chance(1, 2) { 1 + rng.below(P as u64) as usize } else { inp.len() };
+        let (ev, mut resp, _, _) = proc_event(&mut a, &inp[..cutpos]);
+        let mut ok = ev["res"] == "ok";
+        t.emit(&ev);
+        if ok && cutpos < inp.len() {
+            let (ev, r2, _, _) = proc_event(&mut a, &inp[cutpos..]);
+            ok = ev["res"] == "ok";
+            t.emit(&ev);
+            resp.extend_from_slice(&r2);
+        }
+        if !ok || resp.len() != P { return; }
+        t.emit(&p2_facts(&resp, &p1, a.role, dpos));
+    }
+}
+
+/// a packet 1 as a peer of role `peer_role` would send it: digest-less, or with a valid digest at the given scheme / offset
+fn craft_p1(t: &mut Trace, rng: &mut Rng, peer_role: &str, scheme: u64, offset: u32, high: bool, legacy: bool) -> (Vec<u8>, i64) {
     let mut p1 = rng.bytes(P);
-    p1[0..4].copy_from_slice(&[0, 0, 0, 0]);
+    // the time field: zero (as this library sends it) or the peer's uptime (as Flash players and most servers send it)
+    let time = *rng.pick(&[[0u8, 0, 0, 0], [0, 0, 0, 0], [0, 1, 226, 64], [255, 255, 255, 255], [18, 52, 86, 120]]);
+    p1[0..4].copy_from_slice(&time);
     let mut dpos: i64 = -1;
     if legacy {
         p1[4..8].copy_from_slice(&[0, 0, 0, 0]);
@@ -299,22 +354,7 @@ fn crafted(t: &mut Trace, rng: &mut Rng, lib_role: &str, scheme: u64, offset: u3
         dpos = o as i64;
         t.emit(&p1_facts(&p1, peer_role, false, dpos));
     }
-    let mut a = Side { h: Handshake::new(mk(lib_role)), name: "A", role: if lib_role == "client" { "client" } else { "server" } };
-    t.emit(&json!({"ev":"HsNew","side":"A","role":lib_role}));
-    let mut inp = vec![3u8];
-    inp.extend_from_slice(&p1);
-    let (ev, resp, _, _) = proc_event(&mut a, &inp);
-    let ok = ev["res"] == "ok";
-    t.emit(&ev);
-    if ok && resp.len() == 1 + 2 * P {
-        let p2 = &resp[1 + P..];
-        t.emit(&p2_facts(p2, &p1, a.role, dpos));
-        // finish the exchange the way such a peer would: echo (legacy) or any packet 2, plus trailing data
-        let mut fin = if legacy { resp[1..1 + P].to_vec() } else { rng.bytes(P) };
-        fin.extend_from_slice(&[9, 8, 7]);
-        let (ev2, _, _, _) = proc_event(&mut a, &fin);
-        t.emit(&ev2);
-    }
+    (p1, dpos)
 }
 
 pub fn generate(kind: &str, tier: &str, seed: u64, shard: u64, nshards: u64, path: &str) -> Value {
@@ -382,6 +422,11 @@ pub fn generate(kind: &str, tier: &str, seed: u64, shard: u64, nshards: u64, pat
                     }
                     rml_rtmp::verif::set_fill(None);
                 }
+            }
+            // one instance, two handshakes in a row: every combination of digest-bearing / digest-less peers, both roles
+            for i in 0..(if tier == "thorough" { 400 } else { 48 }) {
+                restarted(&mut t, &mut rng, if i % 2 == 0 { "server" } else { "client" }, (i / 2) % 2 == 0, (i / 4) % 2 == 0);
+                runs += 1;
             }
             // digest-less peers under fragmentation: the answer must be an exact echo
             for _ in 0..12 {
